@@ -76,6 +76,14 @@ func (p Parser) Parse(src io.Reader) (f File) {
 		}
 		index++
 
+		if n := findAliasLoop(&doc, map[*yaml.Node]bool{}, map[*yaml.Node]bool{}); n != nil {
+			f.Error = ParseError{
+				Err:  fmt.Errorf("anchor '%s' value contains itself", n.Value),
+				Line: n.Line,
+			}
+			return f
+		}
+
 		if p.isStrict {
 			g, f.Error = parseGroups(&doc, p.schema, 0, 0, cr.lines)
 			if f.Error.Err != nil {
@@ -506,6 +514,29 @@ func parseRule(node *yaml.Node, offsetLine, offsetColumn int, contentLines []str
 	}
 
 	return rule, true
+}
+
+// findAliasLoop returns the first alias node that points at a node it is itself a part of.
+// Following such an alias never ends.
+func findAliasLoop(node *yaml.Node, open, done map[*yaml.Node]bool) *yaml.Node {
+	if node.Kind == yaml.AliasNode && node.Alias != nil {
+		if open[node.Alias] {
+			return node
+		}
+		return findAliasLoop(node.Alias, open, done)
+	}
+	if done[node] {
+		return nil
+	}
+	open[node] = true
+	for _, child := range node.Content {
+		if n := findAliasLoop(child, open, done); n != nil {
+			return n
+		}
+	}
+	open[node] = false
+	done[node] = true
+	return nil
 }
 
 func unpackNodes(node *yaml.Node) []*yaml.Node {
